@@ -55,6 +55,7 @@ MUTANTS = [
     ("vt.contracts.slicer_costs", "SliceFinder.trial", "cotengra/slicer.py", "                next_cost = self.costs[next_ix_sl] = cost.remove(ix)", "                next_cost = self.costs[ix_sl] = cost.remove(ix)"),
     ("vt.contracts.processor_nodes", "remove_ix", "cotengra/pathfinders/path_basic.py", "(jx, jx_count) for jx, jx_count in self.nodes[node] if jx != ix", "(jx, jx_count) for jx, jx_count in self.nodes[node] if jx < ix"),
     ("vt.contracts.processor_nodes", "simplify_batch", "cotengra/pathfinders/path_basic.py", "            self.remove_ix(ix)", "            self.remove_ix(ix_to_remove[0])"),
+    ("vt.contracts.processor_nodes", "ContractionProcessor.copy", "cotengra/pathfinders/path_basic.py", "        new.ssa = self.ssa", "        new.ssa = len(new.nodes)"),
     # C09 DP step: the seeded early sieve on the children's scores, a table update that can make an entry worse, a lost update
     ("vt.contracts.dp_step", "optimize_optimal_connected", "cotengra/pathfinders/path_basic.py", "                        # do sorted simultaneous iteration over ilegs and jlegs", "                        if iscore + jscore > cost_cap:\n                            continue"),
     ("vt.contracts.dp_step", "optimize_optimal_connected", "cotengra/pathfinders/path_basic.py", "if (current is None) or (new_score < current[1]):", "if True:"),
